@@ -1,28 +1,45 @@
 #!/usr/bin/env python3
 """C04 - Output ELF files are structurally well-formed.
 
-Family (bounded-exhaustive): section-shape programs. One relocatable object per (subset, variant):
-every subset of 9 section kinds
+Family (bounded-exhaustive): section-shape programs. One relocatable object (written with elfgen, no
+subprocess) per (subset, variant): every subset of 9 section kinds
     .text  .rodata  .data  .bss  .tdata  .tbss  .init_array  .data.rel.ro  custom
 (custom = `foo` or `.bar` with flags a / aw / ax), each present kind with an alignment from
 {1, 8, 4096, 65536} and a size from {0, 1, 4097} chosen by a fixed covering rule (below), linked by
-the real wild (in-process server) as every output kind
+the real wild (in-process server, --no-gc-sections so that every section is rooted) as every
+output kind
     static non-PIE, static-PIE, PIE (dynamic), dynamic non-PIE, -shared, -r
 under option rows over  -z max-page-size {4096, 65536}  x  --section-start on one section
 x  -z relro / -z norelro  x  a minimal SECTIONS script.  The subset x output-kind axes are always
-exhaustive; what is thinned is stated in `coverage.rule`.
+exhaustive; what is thinned is stated in `coverage.rule`:
+  quick     x86-64; 4 variants per subset with no options + one row of the pairwise option array
+            on variant 0 (row chosen by (subset + variant) mod 5)               ~15k links
+  thorough  x86-64: 5 variants with no options + all 5 pairwise rows on variants 0 and 1;
+            AArch64 (-m aarch64linux): 2 variants, pairwise rows on variant 0      ~60k links
+`-r` takes only the script axis. TLS sections are never the --section-start target when both are
+present (they must stay adjacent); the custom section is the target whenever it is present,
+because wild honours --section-start only for sections that are not built in.
 
 Covering rule for (alignment, size): the 12 combinations are numbered c = 3*ai + si; kind k of the
 subset with bit mask m in variant v gets c = (H(m, k) + 5 v) mod 12 with H a fixed arithmetic
-mixing function, the custom kind's (name, flags) variant is (H(m, 9) + v) mod 6, and
---section-start goes to present kind number (H(m, 10) + v) mod |subset| at an address that is page
-aligned for even v and 8 mod 4096 for odd v. Coverage of (kind, combination) and of
-(kind, combination) pairs is measured and reported.
+mixing function, the custom kind's (name, flags) flavour is (H(m, 9) + v) mod 6, and
+--section-start goes to candidate number (H(m, 10) + v) mod |candidates| at 0x600000 for even v and
+0x600008 for odd v. Coverage of (kind, combination) and of pairs of them is measured and reported.
 
-Oracle: lib/wellformed.py (transcribed from the gABI; reads only the output file), calibrated in
-this run against GNU ld and ld.lld outputs of the same members: a rule that a reference linker's own
-output violates is reported as a machinery problem, not a verdict. x86-64 static members whose
-.text is large enough are also run natively (they must exit 0).
+Oracle: lib/wellformed.py (transcribed from the gABI; reads only the output file). In every run
+  * the monitor is self-tested: 14 single-field corruptions of a GNU ld output must each draw the
+    expected rule;
+  * it is calibrated against GNU ld and ld.lld outputs of the same members (quick: every 4th
+    subset; thorough: GNU ld on every subset of variant 0, lld on every 16th): a rule that a
+    reference linker's own output violates is a machinery error, not a verdict. Two documented
+    exceptions: lld 14's over-long PT_PHDR (TOLERATED), and `relro-exact` under the SECTIONS
+    script, where the reference linkers leave separating RELRO from data to the script's author -
+    that rule is then not judged for wild either (counted);
+  * x86-64 static / static-PIE members whose .text holds the exit sequence are run natively;
+  * thorough: binutils readelf must dump every default-row output of variant 0 without a warning
+    and GNU ld / lld must accept wild's shared objects as link inputs (a complaint that the
+    reference linker's output of the same member draws as well is discounted).
+Violation keys: <monitor rule>:<exe|r>[+script].
 """
 import itertools
 import json
@@ -248,7 +265,9 @@ def job(item):
             pass
         argv = link_argv(arch, kind, row, m, v, obj, "out")
         rc, msg = wildrun.server_link(argv, cwd=d)
-        keys, nsec, nload, nat = [], 0, 0, None
+        if rc == "timeout":      # a loaded machine, or a hang: one retry with a long limit decides
+            rc, msg = wildrun.server_link(argv, cwd=d, timeout=600)
+        keys, nsec, nload, nat, cons, ncons = [], 0, 0, None, [], 0
         if rc == 0:
             try:
                 e = elfread.Elf(out)
@@ -256,9 +275,14 @@ def job(item):
                 keys = check_wellformed(e)
             except elfread.ElfError as ex:
                 keys = [("ehdr-parse", str(ex))]
+            if refs and row == DEFAULT_ROW and G.get("consumers"):
+                cons = consumers(d, "out", arch, kind)
+                ncons += 1 + (kind == "shared")
             if native and not any(k.startswith("ehdr") for k, _ in keys):
                 os.chmod(out, 0o755)
-                r = vlib.run([out], timeout=10)
+                r = vlib.run([out], timeout=30)
+                if r[0] == "timeout":           # loaded machine: one retry decides
+                    r = vlib.run([out], timeout=300)
                 nat = r[0]
         refres = []
         for ref in refs:
@@ -272,9 +296,41 @@ def job(item):
                                stdin=subprocess.DEVNULL, stdout=subprocess.PIPE,
                                stderr=subprocess.PIPE)
             rk = check_wellformed(rout) if p.returncode == 0 else []
+            if p.returncode == 0 and cons:
+                # only needed to discount a complaint that the reference output draws as well
+                rk = rk + consumers(d, "ref", arch, kind)
+                ncons += 1 + (kind == "shared")
             refres.append((ref, p.returncode, rk, p.stderr.decode("utf-8", "replace")[-300:]))
-        res.append((arch, m, v, kind, row, rc, msg[-400:], keys, nsec, nload, nat, refres))
+        if cons:
+            # a consumer complaint that the reference linker's output of the same member also
+            # draws says nothing about wild
+            refkeys = {k for _r, _rc, rk, _e in refres for k, _ in rk}
+            keys = keys + [c for c in cons if c[0] not in refkeys]
+        res.append((arch, m, v, kind, row, rc, msg[-400:], keys, nsec, nload, nat, refres, ncons))
     return res
+
+
+def consumers(d, path, arch, kind):
+    """What two independent consumers say about an output: binutils readelf (warnings / errors on
+    stderr while dumping headers, sections, segments, symbols, dynamic section) and, for a shared
+    object, GNU ld / lld linking against it. -> list of (key, text)."""
+    out = []
+    p = subprocess.run(["readelf", "-hlSsdW", path], cwd=d, stdin=subprocess.DEVNULL,
+                       stdout=subprocess.PIPE, stderr=subprocess.PIPE)
+    err = [l for l in p.stderr.decode("utf-8", "replace").splitlines() if l.strip()]
+    if p.returncode != 0 or err:
+        out.append(("consumer:readelf", "readelf -hlSsdW rc=%d: %s" % (p.returncode,
+                                                                      " | ".join(err)[:300])))
+    if kind == "shared":
+        user = "dummy_%s.o" % arch
+        cmd = ["ld", "-m", "elf_x86_64"] if arch == "x86_64" else ["ld.lld", "-m", "aarch64linux"]
+        p = subprocess.run(cmd + ["-shared", os.path.join(G["base"], user), path, "-o",
+                                  "consumer.out"], cwd=d, stdin=subprocess.DEVNULL,
+                           stdout=subprocess.PIPE, stderr=subprocess.PIPE)
+        if p.returncode != 0:
+            out.append(("consumer:link-against", "%s rc=%d: %s" % (
+                cmd[0], p.returncode, p.stderr.decode("utf-8", "replace").strip()[-300:])))
+    return out
 
 
 def describe(arch, m, v, kind, row):
@@ -285,12 +341,12 @@ def describe(arch, m, v, kind, row):
                          for _k, n, _ty, fl, al, sz in shape(m, v)]}
 
 
-# Diagnostics with which a linker may decline a member (not a well-formedness verdict). wild
-# refusing a member that GNU ld links is another property's business (C01/C15); here such members
-# are counted and listed.
 def replay(path):
+    """Re-run exactly the recorded member (inputs regenerated from the recorded subset / variant),
+    as a real wild subprocess; print the monitor's findings and what GNU ld / lld give for it."""
     with open(path) as fh:
-        rep = json.load(fh)["replay"]
+        rec = json.load(fh)
+    rep = rec["replay"]
     arch, m, v, kind, row = rep["arch"], rep["subset_mask"], rep["variant"], rep["kind"], \
         tuple(rep["row"])
     keep = os.path.join("/dev/shm", "c04-replay")
@@ -306,18 +362,111 @@ def replay(path):
     rc, _o, err = wildrun.link_subprocess(argv, cwd=keep)
     print("wild rc=%s %s" % (rc, err.decode("utf-8", "replace").strip()[:400]))
     bad = False
+    want = rec["key"].rsplit(":", 1)[0]
     if rc == 0:
         for k, msg in check_wellformed(os.path.join(keep, "out")):
-            print("  %s: %s" % (k, msg))
-            bad = True
+            print("  %s%s: %s" % ("* " if k == want else "  ", k, msg))
+            bad = bad or k == want
+        if want.startswith("consumer"):
+            for k, msg in consumers(keep, "out", arch, kind):
+                print("  * %s: %s" % (k, msg))
+                bad = bad or k == want
+        if want.startswith("native-run"):
+            os.chmod(os.path.join(keep, "out"), 0o755)
+            r = vlib.run([os.path.join(keep, "out")], timeout=10)
+            print("  native run: exit %r" % (r[0],))
+            bad = bad or r[0] != 0
     for ref in (["ld", "lld"] if arch == "x86_64" else ["lld"]):
         rargv = link_argv(arch, kind, row, m, v, "m.o", "ref." + ref, linker=ref)
         p = subprocess.run([{"ld": "ld", "lld": "ld.lld"}[ref], *rargv], cwd=keep,
                            stdout=subprocess.PIPE, stderr=subprocess.PIPE)
         print("%s rc=%d monitor=%s" % (ref, p.returncode, classify(
             check_wellformed(os.path.join(keep, "ref." + ref))) if p.returncode == 0 else "-"))
-    print("REPRODUCED" if bad or rc not in (0, 1) else "not reproduced")
-    return 1 if bad or rc not in (0, 1) else 0
+    crashed = rc not in (0, 1, 255)        # 101 = panic, negative = signal
+    print("REPRODUCED" if bad or crashed else "not reproduced")
+    return 1 if bad or crashed else 0
+
+
+def monitor_selftest(base):
+    """Sensitivity of the monitor: one GNU ld output (PIE with interpreter, TLS, RELRO) is corrupted
+    in 14 ways, one header field each; every corruption must draw the expected rule. -> (n,
+    missed list)."""
+    o = g.ElfObject("x86_64")
+    for name, ty, fl, al, sz in ((".text", g.SHT_PROGBITS, A | X, 16, 32),
+                                 (".rodata", g.SHT_PROGBITS, A, 8, 24),
+                                 (".data", g.SHT_PROGBITS, A | W, 8, 40),
+                                 (".bss", g.SHT_NOBITS, A | W, 8, 64),
+                                 (".tdata", g.SHT_PROGBITS, A | W | T, 8, 16),
+                                 (".tbss", g.SHT_NOBITS, A | W | T, 8, 16),
+                                 (".init_array", g.SHT_INIT_ARRAY, A | W, 8, 8),
+                                 (".data.rel.ro", g.SHT_PROGBITS, A | W, 8, 24)):
+        sec = o.section(name, type=ty, flags=fl, align=al,
+                        data=b"" if ty == g.SHT_NOBITS else b"\x5a" * sz,
+                        size=sz if ty == g.SHT_NOBITS else None)
+        if name == ".text":
+            o.symbol("_start", section=sec, type=g.STT_FUNC)
+    o.note_gnu_stack()
+    o.write(os.path.join(base, "self.o"))
+    p = subprocess.run(["ld", "-m", "elf_x86_64", "-pie", "--dynamic-linker=" + INTERP["x86_64"],
+                        "-z", "relro", "--no-gc-sections", "self.o", "libdummy_x86_64.so", "-o",
+                        "self.out"], cwd=base, stdout=subprocess.PIPE, stderr=subprocess.PIPE)
+    if p.returncode != 0:
+        return 0, ["GNU ld failed: " + p.stderr.decode()[-200:]]
+    good = open(os.path.join(base, "self.out"), "rb").read()
+    if check_wellformed(elfread.Elf(data=good)):
+        return 0, ["pristine output flagged: %r" % check_wellformed(elfread.Elf(data=good))]
+    e = elfread.Elf(data=good)
+
+    def ph(i, field):
+        return e.e_phoff + 56 * i + {"p_type": 0, "p_flags": 4, "p_offset": 8, "p_vaddr": 16,
+                                      "p_filesz": 32, "p_memsz": 40, "p_align": 48}[field]
+
+    def sh(name, field):
+        return e.e_shoff + 64 * e.section(name).index + {"sh_flags": 8, "sh_addr": 16,
+                                                         "sh_offset": 24, "sh_size": 32}[field]
+
+    def seg(ptype, pred=lambda p: True):
+        return next(p for p in e.segments if p.p_type == ptype and pred(p))
+
+    def add(buf, off, delta, size=8):
+        v = int.from_bytes(buf[off:off + size], "little") + delta
+        buf[off:off + size] = (v % (1 << 8 * size)).to_bytes(size, "little")
+
+    text = seg(1, lambda p: p.p_flags & 1)
+    data = seg(1, lambda p: p.p_flags & 2)
+    loads = [p for p in e.segments if p.p_type == 1]
+    cases = []
+
+    def case(rule, fn):
+        buf = bytearray(good)
+        fn(buf)
+        cases.append((rule, bytes(buf)))
+
+    case("load-congruent", lambda b: add(b, ph(text.index, "p_offset"), 8))
+    case("load-wx", lambda b: add(b, ph(text.index, "p_flags"), 2, 4))
+    case("sec-perm", lambda b: add(b, ph(text.index, "p_flags"), -1, 4))
+
+    def swap(b):
+        i, j = loads[0].index, loads[1].index
+        x, y = bytes(b[ph(i, "p_type"):ph(i, "p_type") + 56]), bytes(b[ph(j, "p_type"):ph(j, "p_type") + 56])
+        b[ph(i, "p_type"):ph(i, "p_type") + 56], b[ph(j, "p_type"):ph(j, "p_type") + 56] = y, x
+    case("load-order", swap)
+    case("sec-align", lambda b: add(b, sh(".data", "sh_addr"), 4))
+    case("addr-overlap", lambda b: add(b, sh(".bss", "sh_addr"), -8))
+    case("file-overlap", lambda b: add(b, sh(".data", "sh_offset"), -8))
+    case("sec-in-load", lambda b: add(b, ph(data.index, "p_memsz"), -32))
+    case("tls-memsz", lambda b: add(b, ph(seg(7).index, "p_memsz"), -1))
+    case("relro-exact", lambda b: add(b, ph(seg(0x6474e552).index, "p_memsz"), 0x1000))
+    case("relro-cover", lambda b: add(b, ph(seg(0x6474e552).index, "p_vaddr"), 0x1000))
+    case("dynamic", lambda b: add(b, ph(seg(2).index, "p_filesz"), -16))
+    case("interp", lambda b: add(b, ph(seg(3).index, "p_offset"), 1))
+    case("phdr-extent", lambda b: add(b, ph(seg(6).index, "p_filesz"), 56))
+    missed = []
+    for rule, blob in cases:
+        got = {k.split(":")[0] for k, _ in check_wellformed(elfread.Elf(data=blob))}
+        if rule not in got:
+            missed.append("%s (monitor said %s)" % (rule, sorted(got)))
+    return len(cases), missed
 
 
 def main():
@@ -328,28 +477,32 @@ def main():
         vlib.build("wild")
     thorough = chk.thorough
     arches = ["x86_64", "aarch64"] if thorough else ["x86_64"]
-    nvar = {"x86_64": 6 if thorough else 4, "aarch64": 2}
+    nvar = {"x86_64": 5 if thorough else 4, "aarch64": 2}
     G["arches"] = arches
+    G["consumers"] = thorough
     t0 = time.time()
     items = []
     n_ref_planned = 0
+    step = int(os.environ.get("VERIF_C04_DEBUG_STEP", "1"))   # debugging aid; never exhaustive
     for arch in arches:
-        for m in range(1 << NK):
+        for m in range(0, 1 << NK, step):
             for v in range(nvar[arch]):
                 plan = []
                 for kind in OUTPUT_KINDS:
                     if thorough:
                         # default row for every variant; the pairwise option rows on two variants
-                        rows = [DEFAULT_ROW] + (PAIRWISE if v < 2 else [])
+                        rows = [DEFAULT_ROW] + (PAIRWISE if v < (2 if arch == "x86_64" else 1)
+                                                else [])
                     else:
                         rows = [DEFAULT_ROW] + ([PAIRWISE[(m + v) % 5]] if v == 0 else [])
                     for row in rows_for(kind, rows):
                         refs = []
                         if thorough:
-                            # calibration: GNU ld on variant 0 (x86-64), lld on every 8th subset
-                            if v == 0 and arch == "x86_64":
+                            # calibration: GNU ld on variant 0 (x86-64), lld on every 16th subset
+                            # (option rows: every 4th subset)
+                            if v == 0 and arch == "x86_64" and (row == DEFAULT_ROW or m % 4 == 1):
                                 refs.append("ld")
-                            if v == 0 and m % 8 == (3 if arch == "x86_64" else 5):
+                            if v == 0 and m % 16 == (3 if arch == "x86_64" else 5):
                                 refs.append("lld")
                         elif v == 0 and row == DEFAULT_ROW and m % 4 == 1:
                             refs.append("ld")
@@ -361,10 +514,17 @@ def main():
                         n_ref_planned += len(refs)
                         plan.append((kind, row, refs, bool(native)))
                 items.append((arch, m, v, plan))
+    # variant-major order: should the wall cap ever cut the run short, every subset x output kind
+    # has been linked in its first variants
+    items.sort(key=lambda it: (it[2], it[0] != "x86_64", it[1]))
     if chk.seed:
         import random
         random.Random(chk.seed).shuffle(items)
-    stats = dict(links=0, accepted=0, rejected=0, native_runs=0, native_ok=0)
+    cap_s = int(os.environ.get("VERIF_WALL_CAP", 840 if thorough else 50))
+    capped = False
+    members_done = 0
+    stats = dict(links=0, accepted=0, rejected=0, native_runs=0, native_ok=0, consumer_runs=0,
+                 script_induced_reference=0, script_induced_excluded=0)
     refstats = {"ld": dict(links=0, accepted=0, flagged=0), "lld": dict(links=0, accepted=0, flagged=0)}
     ref_flag_keys = {}
     rejected = {}
@@ -377,9 +537,21 @@ def main():
         G["base"] = base
         for arch in arches:
             make_dummy_so(base, arch)
-        for res in wildrun.pmap(job, items, chunksize=4):
-            for arch, m, v, kind, row, rc, msg, keys, nsec, nload, nat, refres in res:
+        n_self, missed = monitor_selftest(base)
+        if missed:
+            chk.machinery("monitor self-test: corruption not detected / setup failed: %s" % missed)
+        all_res = []
+        for res in vlib.pmap_unordered(job, items, chunksize=4):
+            members_done += 1
+            all_res.append(res)
+            if time.time() - t0 > cap_s:
+                capped = True
+                break
+        all_res.sort(key=lambda res: (res[0][2], res[0][0] != "x86_64", res[0][1]) if res else ())
+        for res in all_res:
+            for arch, m, v, kind, row, rc, msg, keys, nsec, nload, nat, refres, ncons in res:
                 stats["links"] += 1
+                stats["consumer_runs"] += ncons
                 per_kind[kind]["links"] += 1
                 sh = shape(m, v)
                 rep = {"arch": arch, "subset_mask": m, "variant": v, "kind": kind, "row": row,
@@ -388,6 +560,7 @@ def main():
                 if rc == 0:
                     stats["accepted"] += 1
                     per_kind[kind]["accepted"] += 1
+
                     # distinct non-trivial = distinct (arch, kind, options, section shape) whose
                     # output has >= 2 sections from the member's own kinds laid out
                     if len([1 for s in sh if s[5]]) >= 2:
@@ -397,6 +570,9 @@ def main():
                     for s1, s2 in itertools.combinations(sh, 2):
                         pair_cov.add((s1[0], s1[4], s1[5], s2[0], s2[4], s2[5]))
                     for k in classify(keys):
+                        if row[3] and k.startswith("relro-exact"):
+                            stats["script_induced_excluded"] += 1     # see the calibration note
+                            continue
                         what = next(msg_ for kk, msg_ in keys if kk == k)
                         chk.violation("%s:%s" % (k, tag), "[%s] %s; member %s"
                                       % (arch, what, json.dumps(rep["describe"])[:300]), rep)
@@ -421,6 +597,16 @@ def main():
                     st["links"] += 1
                     if rrc == 0:
                         st["accepted"] += 1
+                        st["consumer_complaints"] = st.get("consumer_complaints", 0) + \
+                            sum(1 for k, _ in rkeys if k.startswith("consumer:"))
+                        rkeys = [t for t in rkeys if not t[0].startswith("consumer:")]
+                        if row[3]:
+                            # Under a SECTIONS script the reference linkers leave the separation
+                            # of RELRO from ordinary data to the script's author (lld places the
+                            # orphan .dynamic right behind .data): not binding, counted.
+                            ind = [t for t in rkeys if t[0].startswith("relro-exact")]
+                            stats["script_induced_reference"] += len(ind)
+                            rkeys = [t for t in rkeys if t not in ind]
                         if rkeys:
                             st["flagged"] += 1
                             for k in classify(rkeys):
@@ -442,12 +628,16 @@ def main():
                 "covering rule in the module docstring) x option rows (quick: the no-option row on "
                 "every variant + one pairwise row on variant 0; thorough: the no-option row on "
                 "every variant + the 5-row strength-2 covering array of max-page-size x "
-                "section-start x relro x script on variants 0,1; -r gets only the script axis). "
+                "section-start x relro x script on variants 0,1 (aarch64: variant 0); -r gets only "
+                "the script axis). "
                 "distinct_nontrivial = distinct accepted (arch, kind, options, shape) members with "
                 ">= 2 non-empty sections of the family" % (OUTPUT_KINDS, nvar["x86_64"],
                                                            nvar.get("aarch64", 0)),
-        "exhaustive": True,
-        "subsets": 1 << NK, "arches": arches,
+        "exhaustive": step == 1 and not capped,
+        "capped": "wall cap of %d s hit after %d of %d (subset, variant) members" % (
+            cap_s, members_done, len(items)) if capped else None,
+        "members_planned": len(items), "members_run": members_done,
+        "subsets": len(range(0, 1 << NK, step)), "arches": arches,
         "wild_links": stats["links"], "wild_accepted": stats["accepted"],
         "wild_rejected": stats["rejected"],
         "wild_rejections_by_message": {k: len(v) for k, v in sorted(rejected.items())},
@@ -455,11 +645,15 @@ def main():
         "kind_combo_coverage": "%d of %d (kind, align, size) triples" % (len(combo_cov), NK * 12),
         "kind_pair_combo_coverage": "%d of %d ((kind, align, size), (kind, align, size)) pairs"
                                     % (len(pair_cov), NK * (NK - 1) // 2 * 144),
+        "monitor_selftest": "%d single-field corruptions of a GNU ld output, all detected" % n_self,
         "calibration": {r: s for r, s in refstats.items()},
         "calibration_tolerated": {k: len(v) for k, v in sorted(tolerated.items())},
         "native_runs": stats["native_runs"], "native_ok": stats["native_ok"],
+        "consumer_runs": stats["consumer_runs"],
+        "relro_exact_under_script_not_judged": {"wild": stats["script_induced_excluded"],
+                                                "reference": stats["script_induced_reference"]},
         "subprocesses": refstats["ld"]["links"] + refstats["lld"]["links"] + stats["native_runs"]
-        + len(arches),
+        + stats["consumer_runs"] + len(arches),
         "violation_keys": _key_counts(chk),
         "samples": samples or [describe("x86_64", 0x1ff, 0, "pie", DEFAULT_ROW)],
         "wall_links_s": round(time.time() - t0, 1),
